@@ -201,4 +201,184 @@ theorem bsplineG_relerr (hε : 0 ≤ ε) (hfl : ∀ a, RelErr ε 1 a (fl a)) (t 
         exact ⟨le_trans (hm _ _ (le_refl _) (by omega) (by push_cast; omega)) (s2 hb2).1, (s2 hb2).2⟩
       · exact ⟨(s1 hb1).1, lt_of_lt_of_le (s1 hb1).2 (hm _ _ (by omega) (by omega) (by push_cast; omega))⟩
 
+/-! ## aligned entry lists: exact / rounded / majorant -/
+
+/-- the three lists list the same index tuples in the same order; every rounded value `w` is within
+`gfac ε k · m` of the exact value `v`, and `|v| ≤ m` -/
+inductive EntsRel (ε : F) (k : Nat) :
+    List (List Nat × F) → List (List Nat × F) → List (List Nat × F) → Prop
+  | nil : EntsRel ε k [] [] []
+  | cons {i : List Nat} {v w m : F} {lE lR lM : List (List Nat × F)} :
+      Acc ε k m v w → EntsRel ε k lE lR lM → EntsRel ε k ((i, v) :: lE) ((i, w) :: lR) ((i, m) :: lM)
+
+theorem EntsRel.append {k : Nat} {a1 a2 a3 b1 b2 b3 : List (List Nat × F)}
+    (h : EntsRel ε k a1 a2 a3) (h' : EntsRel ε k b1 b2 b3) :
+    EntsRel ε k (a1 ++ b1) (a2 ++ b2) (a3 ++ b3) := by
+  induction h with
+  | nil => simpa using h'
+  | cons hacc _ ih => exact EntsRel.cons hacc ih
+
+theorem EntsRel.mono (hε : 0 ≤ ε) {k k' : Nat} {a b c : List (List Nat × F)} (hk : k ≤ k')
+    (h : EntsRel ε k a b c) : EntsRel ε k' a b c := by
+  induction h with
+  | nil => exact .nil
+  | cons hacc _ ih => exact .cons (hacc.mono hε hk) ih
+
+/-- the three tensors have the same index ranges and aligned entries -/
+structure TRel (ε : F) (k : Nat) (E R M : NdSparse F) : Prop where
+  rR : R.ranges = E.ranges
+  rM : M.ranges = E.ranges
+  ents : EntsRel ε k E.entries R.entries M.entries
+
+/-- **reading a cell**: `get` adds the `N` listed values up (`fl` after every addition), so the cell
+carries `N` more roundings than its entries -/
+theorem TRel.get (hε : 0 ≤ ε) (hfl : ∀ a, RelErr ε 1 a (fl a)) {k : Nat} {E R M : NdSparse F}
+    (h : TRel ε k E R M) (idx : List Nat) :
+    Acc ε (k + E.nlisted idx) (@NdSparse.get F (Arith.ofField F) M idx)
+      (@NdSparse.get F (Arith.ofField F) E idx) (@NdSparse.get F (Arith.rounded fl st) R idx) := by
+  obtain ⟨rE, lE⟩ := E
+  obtain ⟨rR, lR⟩ := R
+  obtain ⟨rM, lM⟩ := M
+  have he := h.ents
+  simp only at he
+  unfold NdSparse.get NdSparse.nlisted
+  simp only [of_add, of_zero, rd_add, rd_zero]
+  clear h
+  induction he with
+  | nil => simpa using Acc.zero (ε := ε) k
+  | @cons i v w m lE lR lM hacc _ ih =>
+    simp only [List.foldr_cons]
+    by_cases hi : i = idx
+    · simp only [if_pos hi]
+      have := Acc.add_round hε hfl (hacc.mono hε (Nat.le_add_right k _)) ih
+      simpa [Nat.add_assoc] using this
+    · simp only [if_neg hi]
+      exact ih
+
+/-! ## one slice multiplication -/
+
+theorem sliceMultiply_eq_some' {α : Type} [A : Arith α] (a : NdSparse α) (b : Mat α) (dim : Nat)
+    (hb : b.nrow = a.ranges.getD dim 0) :
+    sliceMultiply a b dim = some ⟨a.ranges.set dim b.ncol,
+      a.entries.flatMap fun e =>
+        (List.range b.ncol).filterMap fun g =>
+          if isZero (b.val (e.1.getD dim 0) g) then none
+          else some (unflattenIdx (a.ranges.set dim b.ncol) dim g (flattenCol a.ranges e.1 dim),
+                     A.mul (b.val (e.1.getD dim 0) g) e.2)⟩ := by
+  unfold sliceMultiply
+  rw [if_neg (fun h => h hb)]
+
+/-- the products of one source entry with the stored entries of its basis row -/
+theorem slice_entry_rel (hε : 0 ≤ ε) (hfl : ∀ a, RelErr ε 1 a (fl a)) {k kb : Nat} {m v w : F}
+    (hacc : Acc ε k m v w) (I : Nat → List Nat) (βE βR : Nat → F) (gs : List Nat)
+    (hb : ∀ g ∈ gs, RelErr ε kb (βE g) (βR g) ∧ 0 ≤ βE g) :
+    EntsRel ε (k + kb + 1)
+      (gs.filterMap fun g => if @isZero F (Arith.ofField F) (βE g) then none
+        else some (I g, @Arith.mul F (Arith.ofField F) (βE g) v))
+      (gs.filterMap fun g => if @isZero F (Arith.rounded fl st) (βR g) then none
+        else some (I g, @Arith.mul F (Arith.rounded fl st) (βR g) w))
+      (gs.filterMap fun g => if @isZero F (Arith.ofField F) (βE g) then none
+        else some (I g, @Arith.mul F (Arith.ofField F) (βE g) m)) := by
+  induction gs with
+  | nil => exact .nil
+  | cons g gs ih =>
+    have ih' := ih (fun g' hg' => hb g' (by simp [hg']))
+    obtain ⟨hr, h0⟩ := hb g (by simp)
+    simp only [List.filterMap_cons]
+    simp only [isZero_of, isZero_rd, decide_eq_true_eq, of_mul, rd_mul] at ih' ⊢
+    by_cases hz : βE g = 0
+    · have hzR : βR g = 0 := (hr.eq_zero_iff hε).2 hz
+      simp only [hz, hzR, if_true]
+      exact ih'
+    · have hzR : ¬ βR g = 0 := fun h => hz ((hr.eq_zero_iff hε).1 h)
+      simp only [hz, hzR, if_false]
+      exact .cons (Acc.mul_round hε hfl hacc hr h0) ih'
+
+theorem slice_entries_rel (hε : 0 ≤ ε) (hfl : ∀ a, RelErr ε 1 a (fl a)) (ranges ranges' : List Nat)
+    (dim ncol : Nat) (bE bR : Nat → Nat → F) {k kb : Nat} {lE lR lM : List (List Nat × F)}
+    (h : EntsRel ε k lE lR lM)
+    (hb : ∀ e ∈ lE, ∀ g, g < ncol →
+      RelErr ε kb (bE (e.1.getD dim 0) g) (bR (e.1.getD dim 0) g) ∧ 0 ≤ bE (e.1.getD dim 0) g) :
+    EntsRel ε (k + kb + 1)
+      (lE.flatMap fun e => (List.range ncol).filterMap fun g =>
+        if @isZero F (Arith.ofField F) (bE (e.1.getD dim 0) g) then none
+        else some (unflattenIdx ranges' dim g (flattenCol ranges e.1 dim),
+          @Arith.mul F (Arith.ofField F) (bE (e.1.getD dim 0) g) e.2))
+      (lR.flatMap fun e => (List.range ncol).filterMap fun g =>
+        if @isZero F (Arith.rounded fl st) (bR (e.1.getD dim 0) g) then none
+        else some (unflattenIdx ranges' dim g (flattenCol ranges e.1 dim),
+          @Arith.mul F (Arith.rounded fl st) (bR (e.1.getD dim 0) g) e.2))
+      (lM.flatMap fun e => (List.range ncol).filterMap fun g =>
+        if @isZero F (Arith.ofField F) (bE (e.1.getD dim 0) g) then none
+        else some (unflattenIdx ranges' dim g (flattenCol ranges e.1 dim),
+          @Arith.mul F (Arith.ofField F) (bE (e.1.getD dim 0) g) e.2)) := by
+  induction h with
+  | nil => exact .nil
+  | @cons i v w m lE lR lM hacc _ ih =>
+    simp only [List.flatMap_cons]
+    refine EntsRel.append ?_ (ih (fun e he g hg => hb e (by simp [he]) g hg))
+    exact slice_entry_rel hε hfl hacc (fun g => unflattenIdx ranges' dim g (flattenCol ranges i dim))
+      (fun g => bE (i.getD dim 0) g) (fun g => bR (i.getD dim 0) g) (List.range ncol)
+      (fun g hg => hb (i, v) (by simp) g (List.mem_range.mp hg))
+
+/-- **One slice multiplication under rounding.**  Basis matrix entries non-negative and known up to `kb`
+roundings: every entry of the result carries `kb + 1` more roundings than the entries of the input. -/
+theorem sliceMultiply_rel (hε : 0 ≤ ε) (hfl : ∀ a, RelErr ε 1 a (fl a)) {k kb : Nat} {aE aR aM : NdSparse F}
+    (h : TRel ε k aE aR aM) (bE bR : Mat F) (dim : Nat) (hnr : bR.nrow = bE.nrow) (hnc : bR.ncol = bE.ncol)
+    (hb : ∀ j g, j < bE.nrow → g < bE.ncol → RelErr ε kb (bE.val j g) (bR.val j g) ∧ 0 ≤ bE.val j g)
+    (hwf : aE.WF) (hd : dim < aE.ranges.length) (hdim : bE.nrow = aE.ranges.getD dim 0) :
+    ∃ cE cR cM, @sliceMultiply F (Arith.ofField F) aE bE dim = some cE ∧
+      @sliceMultiply F (Arith.rounded fl st) aR bR dim = some cR ∧
+      @sliceMultiply F (Arith.ofField F) aM bE dim = some cM ∧ TRel ε (k + kb + 1) cE cR cM := by
+  refine ⟨_, _, _, sliceMultiply_eq_some' (A := Arith.ofField F) aE bE dim hdim,
+    sliceMultiply_eq_some' (A := Arith.rounded fl st) aR bR dim (by rw [hnr, h.rR]; exact hdim),
+    sliceMultiply_eq_some' (A := Arith.ofField F) aM bE dim (by rw [h.rM]; exact hdim), ?_⟩
+  refine ⟨by simp only [h.rR, hnc], by simp only [h.rM], ?_⟩
+  simp only [h.rR, h.rM, hnc]
+  refine slice_entries_rel hε hfl aE.ranges (aE.ranges.set dim bE.ncol) dim bE.ncol bE.val bR.val h.ents ?_
+  intro e he g hg
+  exact hb _ g (by rw [hdim]; exact (hwf e he).2 dim hd) hg
+
+/-! ## the basis matrix -/
+
+theorem basisT_rel (hε : 0 ≤ ε) (hfl : ∀ a, RelErr ε 1 a (fl a)) (t : Int → F) (nknots order : Nat) (xs : List F)
+    (hm : ∀ i j : Int, 0 ≤ i → i ≤ j → j < nknots → t i ≤ t j) (j g : Nat)
+    (hj : j < nknots - order - 1) (hg : g < xs.length) :
+    RelErr ε (5 * order) ((@bsplineBasis F (Arith.ofField F) t nknots order xs).transpose.val j g)
+        ((@bsplineBasis F (Arith.rounded fl st) t nknots order xs).transpose.val j g) ∧
+      0 ≤ (@bsplineBasis F (Arith.ofField F) t nknots order xs).transpose.val j g := by
+  simp only [Mat.transpose, bsplineBasis, tabGet_tabOf]
+  rw [List.getElem?_eq_getElem hg]
+  simp only
+  have := bsplineG_relerr (st := st) hε hfl t xs[g] order (j : Int)
+    (fun a b h1 h2 h3 => hm a b (by omega) h2 (by omega))
+  exact ⟨this.1, this.2.1⟩
+
+/-! ## the coefficient tensor -/
+
+theorem coefTensor_rel (dims : List (Dim F)) (coef : Int → F) :
+    TRel ε 0 (@coefTensor F (Arith.ofField F) dims coef) (@coefTensor F (Arith.rounded fl st) dims coef)
+      (@coefTensor F (Arith.ofField F) dims fun i => |coef i|) := by
+  refine ⟨by cases dims <;> rfl, by cases dims <;> rfl, ?_⟩
+  have key : ∀ (l : List Nat), EntsRel ε 0
+      (l.filterMap fun (i : Nat) => if @isZero F (Arith.ofField F) (coef (Int.ofNat i)) then none
+        else some (decodeStrides (dims.map (·.stride)) i, coef (Int.ofNat i)))
+      (l.filterMap fun (i : Nat) => if @isZero F (Arith.rounded fl st) (coef (Int.ofNat i)) then none
+        else some (decodeStrides (dims.map (·.stride)) i, coef (Int.ofNat i)))
+      (l.filterMap fun (i : Nat) => if @isZero F (Arith.ofField F) |coef (Int.ofNat i)| then none
+        else some (decodeStrides (dims.map (·.stride)) i, |coef (Int.ofNat i)|)) := by
+    intro l
+    induction l with
+    | nil => exact .nil
+    | cons i l ih =>
+      simp only [List.filterMap_cons]
+      simp only [isZero_of, isZero_rd, decide_eq_true_eq, abs_eq_zero] at ih ⊢
+      by_cases hz : coef (Int.ofNat i) = 0
+      · simp only [hz, if_true]; exact ih
+      · simp only [hz, if_false]
+        exact .cons ⟨by simp [gfac], le_refl _⟩ ih
+  cases dims with
+  | nil => exact key _
+  | cons d ds => exact key _
+
 end PsV
